@@ -8,7 +8,8 @@
      genEnd(how, p)                  the generator returns (how="ret") or panics with sentinel p
      mapStart(i) / mapEnd(i,how,p)   the mapper is entered with item i / returns or panics
      mapWrite(i,v) / mapWriteEnd     a mapper calls writer.Write(v) (values unique) / Write returned
-     cancelStart(e) / cancelEnd      a mapper or the reducer calls cancel(err e; 0 = nil) / cancel returned
+     reset(api, wset, wopt, defw)    one call begins; its worker configuration: WithWorkers(wopt) was passed (wset) or not
+     cancelStart(e) / cancelEnd      a mapper or the reducer calls cancel(err e; 0 = nil, see "error domain") / cancel returned
      ctxStart / ctxEnd               the context's cancel function is called / has returned
      redStart, redRecv(v), redClosed the reducer is entered / receives v from the pipe / sees the pipe closed
      redWrite(v) / redWriteEnd       the reducer calls writer.Write(v) / Write returned
@@ -33,15 +34,42 @@ VARIABLE ps      \* the observable bookkeeping, one record (see PNew)
 \*   <<"none", 0>>    ForEach/FinishVoid returned          <<"err", e>>    e >= 0: the error passed to cancel
 \*   <<"err", CtxErr>> a context error                     (0: ErrCancelWithNil), <<"err", OtherErr>> anything else
 \*   <<"panic", p>>   p > 0 sentinel of a user panic, InternalPanic otherwise
-CtxErr == -2
-OtherErr == -3
+CtxErr == -2          \* context.DeadlineExceeded
+OtherErr == -3        \* an error nobody passed to cancel and that is no context error
+CtxCanceled == -4     \* context.Canceled
 InternalPanic == -1
+CtxErrs == {CtxErr, CtxCanceled}
+
+\* ---------------------------------------------------------------- worker counts
+\* The whole legal domain of the option: any int.  "anything below 1 means the minimum (one worker)";
+\* without the option the library's default applies (defw, a constant of the package the harness reads).
+\* Finish / FinishVoid run all their functions in parallel: their worker count is the number of functions
+\* (0 functions: nothing to run, the same clamping applies).
+EffWorkers(wset, wopt, defw) == IF ~wset THEN defw ELSE IF wopt < 1 THEN 1 ELSE wopt
+
+\* ---------------------------------------------------------------- error domain of cancel
+\* An error is an identity (an int the harness assigns to one Go error VALUE; the same value passed twice has
+\* the same identity).  The property treats every member alike - whatever was passed comes back, nil comes
+\* back as ErrCancelWithNil - so Layer P has no case distinction; the classes are named because the
+\* implementation may (wrongly) distinguish them, and Layer I / the harness must reach each of them:
+\*   0                nil
+\*   1 .. 6999        ordinary error values
+\*   7001 .. 7099     "typed nil": a non-nil error interface holding a nil pointer / map / func, or an error value
+\*                    of a type that cannot be compared with == (all legal: err # nil holds at the call site)
+\*   7100 .. 7199     wrappers (fmt.Errorf("%w"), errors.Join): the identity is the wrapper's, not the wrapped error's
+\*   7200 .. 7299     pointer errors (one allocation, possibly passed to cancel more than once)
+\*   CtxErr, CtxCanceled   context.DeadlineExceeded / context.Canceled passed to cancel by user code (legal
+\*                    results then even though the call's own context is alive)
+IsNilErr(e)      == e = 0
+IsTypedNilErr(e) == e \in 7001..7099
+IsWrappedErr(e)  == e \in 7100..7199
+ErrDomain(e)     == e >= 0 \/ e \in CtxErrs
 
 PNew(api, workers) ==
   [ api      |-> api,         \* "mr" (MapReduce/MapReduceChan), "void" (MapReduceVoid), "foreach" (ForEach/FinishVoid),
                               \* "finish" (Finish: the functions are the items, returning an error is the cancel,
                               \*           the reducer is the library's own: nil needs every function to have returned nil)
-    workers  |-> workers,     \* the configured number of workers (after the library's clamping to >= 1)
+    workers  |-> workers,     \* the configured number of workers: EffWorkers(option passed?, option, default)
     gsent    |-> {},          \* items the generator has tried to send
     gstate   |-> "run",       \* generator: "run" | "ret" | "panic"
     mapped   |-> {},          \* items handed to the mapper
@@ -102,7 +130,7 @@ MapEndEff(i, how, p) ==
   Set([ps EXCEPT !.inside = @ \ {i}, !.praised = IF how = "panic" THEN @ \cup {p} ELSE @])
 
 \* ---------------------------------------------------------------- cancel / context
-CancelStartOK(e) == e >= 0
+CancelStartOK(e) == ErrDomain(e)
 CancelStartEff(e) ==
   Set([ps EXCEPT !.cstarted = @ \cup {e}, !.cin = @ + 1, !.wrace = @ \/ ps.rwriting])
 CancelEndOK == ps.cin > 0
@@ -149,8 +177,9 @@ RedEndEff(how, p) ==
 \* ReturnsLegally.
 \*  - a clean result (value / no output / plain return) needs its evidence (the reducer passed exactly this value
 \*    to Write, resp. returned without writing) and no fault that had definitely taken effect before the evidence;
-\*  - an error must be one that was passed to cancel (0 = nil reported as ErrCancelWithNil) or a context error
-\*    while the context is ending/ended;
+\*  - an error must be one that was passed to cancel (its identity; 0 = nil reported as ErrCancelWithNil; a
+\*    context error value passed to cancel by user code included) or a context error while the call's context
+\*    is ending/ended;
 \*  - a re-raised panic must be a panic some user function raised.
 \* ForEach/FinishVoid return nothing: a plain return is legal unless a user function panicked and the context is
 \* alive (with an ended context the call may give up at any time).
@@ -160,8 +189,8 @@ RetOK(kind, v) ==
      \/ kind = "noout" /\ ps.api \in {"mr", "void"} /\ ps.evid = "noout" /\ ~ps.dirty
      \/ kind = "noout" /\ ps.api = "finish" /\ ~Faulted /\ ps.mapped = ps.gsent /\ ps.inside = {}
      \/ kind = "none"  /\ ps.api = "foreach" /\ (ps.praised = {} \/ ps.ctx # 0)
-     \/ kind = "err"   /\ ps.api # "foreach" /\ v >= 0 /\ v \in ps.cstarted
-     \/ kind = "err"   /\ ps.api # "foreach" /\ v = CtxErr /\ ps.ctx # 0
+     \/ kind = "err"   /\ ps.api # "foreach" /\ ErrDomain(v) /\ v \in ps.cstarted
+     \/ kind = "err"   /\ ps.api # "foreach" /\ v \in CtxErrs /\ ps.ctx # 0
      \/ kind = "panic" /\ v > 0 /\ v \in ps.praised
 \* known finding KF_WriteAfterFinish: the reducer's Write had passed its guard when a cancel / the context's end
 \* closed the output channel; the library's own "send on closed channel" panic is re-raised to the caller
